@@ -86,16 +86,18 @@ Inductive creds :=
 | Creds (u p : str)        (* authenticateUser is called with these *)
 | Direct (r : reply).      (* answered without consulting the backend *)
 
-(** handleClient + HandleLogin on one line as read (terminator included).
+(** handleClient + HandleLogin on one line as read (terminator included);
+    [authed] = state.Authenticated when the line arrives.
     [Direct R_NONE]: the line is not dispatched to HandleLogin. *)
-Definition login_creds (tls : bool) (line : str) : creds :=
+Definition login_creds (authed tls : bool) (line : str) : creds :=
   let parts := fields (trim_space line) in
   match parts with
   | _ :: cmd :: rest =>
       if str_eqb (to_upper cmd) (S_ "LOGIN") then
         match rest with
         | a :: b :: _ =>
-            if tls then Creds (trim a [DQ]) (trim b [DQ]) else Direct R_NO
+            if authed then Direct R_BAD      (* "BAD Already authenticated" *)
+            else if tls then Creds (trim a [DQ]) (trim b [DQ]) else Direct R_NO
         | _ => Direct R_BAD
         end
       else Direct R_NONE
@@ -110,7 +112,8 @@ Definition plain_fields (decoded : str) : option (str * str) :=
   | _ => None
   end.
 
-Definition authplain_creds (tls : bool) (data : str) : creds :=
+Definition authplain_creds (authed tls : bool) (data : str) : creds :=
+  if authed then Direct R_BAD else      (* "BAD Already authenticated", before "+ " *)
   if negb tls then Direct R_NO else
   let a := trim_space data in
   if str_eqb a (S_ "*") then Direct R_BAD else
@@ -220,16 +223,26 @@ Definition sasl_line (domain : str) (raw : str) (b : outcome) : sasl_out :=
 
 (** ---- a session: a sequence of attempts on one connection ---- *)
 
+Inductive entry :=
+| E_login (tls : bool) (line : str)         (* a command line dispatched by handleClient *)
+| E_authplain (tls : bool) (data : str).    (* AUTHENTICATE PLAIN and the bytes after "+ " *)
+
+Definition entry_creds (authed : bool) (e : entry) : creds :=
+  match e with
+  | E_login tls line => login_creds authed tls line
+  | E_authplain tls data => authplain_creds authed tls data
+  end.
+
 Record attempt := mk_attempt {
-  a_domain : str; a_creds : creds; a_backend : outcome; a_ens : bool; a_init : bool }.
+  a_domain : str; a_entry : entry; a_backend : outcome; a_ens : bool; a_init : bool }.
 
 Record sess := mk_sess { authed : bool; who : option (str * str) }.
 
-Definition run_attempt (a : attempt) : auth_out :=
-  run_creds (a_domain a) (a_creds a) (a_backend a) (a_ens a) (a_init a).
+Definition run_attempt (au : bool) (a : attempt) : auth_out :=
+  run_creds (a_domain a) (entry_creds au (a_entry a)) (a_backend a) (a_ens a) (a_init a).
 
 Definition sess_step (s : sess) (a : attempt) : sess :=
-  let r := run_attempt a in
+  let r := run_attempt (authed s) a in
   match answer r with
   | R_OK => mk_sess true (bound r)
   | _ => s
